@@ -26,13 +26,10 @@ EXTENDS LRDriver, Earley, Json
 Cases == JsonDeserialize("tcases.json")
 Trace == ndJsonDeserialize("trace.ndjson")
 
-\* per case: is the grammar conflict-free LALR(1) (by the specification's definition)?
-CF == TLCEval([i \in DOMAIN Cases |->
-        LET G == Cases[i].g S0 == States0(G)
-        IN ConflictCells(G, LADef(G), S0, DeclTerms(G) \cup {End}) = {}])
-
 \* the specification's own table per case (used for C04 at behaviour level)
 STab == TLCEval([i \in DOMAIN Cases |-> TLCEval(SpecOf(Cases[i].g))])
+\* is the current case's grammar conflict-free LALR(1) (by the specification's definition)?
+\* (STab is referenced directly with the state variable, see DESIGN.md 0.3)
 
 VARIABLES l, phase, cs, variant, input, stk, vstk, la, laval, fetched, dok, reds, verdict, val, nfetch, ref, prev
 vars == <<l, phase, cs, variant, input, stk, vstk, la, laval, fetched, dok, reds, verdict, val, nfetch, ref, prev>>
@@ -143,17 +140,19 @@ C01_Run == (Ended /\ verdict = "accept") =>
              /\ stk = <<StartSym(Gc)>>
              /\ la = End
              /\ fetched = input \o <<End>>
-C02_Run == (Ended /\ CF[cs] /\ ERef.status = "accept") => verdict = "accept"
+C02_Run == (Ended /\ STab[cs].conflictfree /\ ERef.status = "accept") => verdict = "accept"
 C06_Class == Ended => \/ verdict \in {"accept", "syntaxerr"}
-                      \/ verdict = "diverge" /\ ~CF[cs]
-C06_FirstBad == (Ended /\ CF[cs] /\ ERef.status = "error") =>
+                      \/ verdict = "diverge" /\ ~STab[cs].conflictfree
+\* whatever the grammar (conflicts or not): an input outside L(G) is never answered with a result
+C06_NoFalseAccept == (Ended /\ verdict = "accept") => ERef.status = "accept"
+C06_FirstBad == (Ended /\ STab[cs].conflictfree /\ ERef.status = "error") =>
                    /\ verdict = "syntaxerr"
                    /\ nfetch = ERef.pos
                    /\ fetched = SubSeq(input \o <<End>>, 1, ERef.pos)
 \* C04 (behaviour): grammar with conflicts that are all decided by the C04 rules:
 \* the generated parser does what the specification's resolved table does
 SRef == Run(Gc, STab[cs], input)
-C04_Run == (Ended /\ STab[cs].decided /\ ~CF[cs] /\ SRef.status # "diverge") =>
+C04_Run == (Ended /\ STab[cs].decided /\ ~STab[cs].conflictfree /\ SRef.status # "diverge") =>
               /\ (verdict = "accept") <=> (SRef.status = "accept")
               /\ (verdict = "syntaxerr") <=> (SRef.status = "error")
               /\ reds = SRef.reds
